@@ -1,5 +1,5 @@
 (* Json.v — model of cassis/json.py as the code does it (current /repo, after the JSON repairs 6187a70 c3a6924 add40ad
-   fe744aa d6ca9fa 1bfc9b2 95eeae1 c9a01e4 941f890 a7ade58):
+   fe744aa d6ca9fa 1bfc9b2 95eeae1 c9a01e4 941f890 a7ade58 d1bc860 d94ad6a):
      save_json L s mode c     CasJsonSerializer.serialize: views loop (view entry, sofa byte array with id assignment,
                               sofa), Cas._find_all_fs(include_inlinable_arrays_and_lists=True) sorted by id,
                               _serialize_feature_structure per kind, %TYPES for FULL / MINIMAL / NONE
@@ -134,15 +134,18 @@ Definition enc_view (h : heap) (v : cview) : res (string * json) :=
   do ids <- member_ids h (v_members v) ;;
   Ok (s_name (v_sofa v), JObj [(K_SOFA, JInt (s_xid (v_sofa v))); (K_MEMBERS, JArr (map JInt (zsort ids)))]).
 
-(* `for view in cas.views`: the view entry, then the sofa's byte array (given an id if it has none), then the sofa *)
-Definition step_view (L : lex) (s : schema) (acc : res (cas * list json * list (string * json))) (v : cview)
-  : res (cas * list json * list (string * json)) :=
+(* `for view in cas.views`: the view entry, then the sofa's byte array (given an id if it has none) unless an earlier
+   sofa has written it already (d1bc860: `written_sofa_arrays`, the id()s of the arrays written so far), then the sofa *)
+Definition omem (o : oid) (l : list oid) : bool := existsb (N.eqb o) l.
+Definition step_view (L : lex) (s : schema) (acc : res (cas * list json * list (string * json) * list oid)) (v : cview)
+  : res (cas * list json * list (string * json) * list oid) :=
   do st <- acc ;;
-  let '(c, fss, views) := st in
+  let '(c, fss, views, wr) := st in
   do jv <- enc_view (c_heap c) v ;;
   do ca <- match s_arr (v_sofa v) with
-           | None => Ok (c, [])
+           | None => Ok (c, [], wr)
            | Some o =>
+             if omem o wr then Ok (c, [], wr) else
              match hget (c_heap c) o with
              | None => Err EAttribute
              | Some f =>
@@ -151,12 +154,12 @@ Definition step_view (L : lex) (s : schema) (acc : res (cas * list json * list (
                          | None => mkCas (c_views c) (hset (c_heap c) o (set_id f (c_next_id c))) (c_next_id c + 1)
                          end in
                let f1 := match o_id f with Some _ => f | None => set_id f (c_next_id c) end in
-               do m <- enc_fs L s c1 f1 ;; Ok (c1, [JObj m])
+               do m <- enc_fs L s c1 f1 ;; Ok (c1, [JObj m], wr ++ [o])
              end
            end ;;
-  let '(c1, arrs) := ca in
+  let '(c1, arrs, wr1) := ca in
   do ms <- enc_sofa L c1 (v_sofa v) ;;
-  Ok (c1, fss ++ arrs ++ [JObj ms], views ++ [jv]).
+  Ok (c1, fss ++ arrs ++ [JObj ms], views ++ [jv], wr1).
 
 (* ------------------------------------------------------------------------------------------ embedded type system *)
 
@@ -221,9 +224,16 @@ Fixpoint sinsert (x : string) (l : list string) : list string :=
   match l with [] => [x] | y :: r => if String.leb x y then x :: y :: r else y :: sinsert x r end.
 Definition sort_names (l : list string) : list string := fold_right sinsert [] l.
 
-(* the implicitly added DocumentAnnotation is not written unless it was extended (c9a01e4) *)
+(* the implicitly added DocumentAnnotation is not written unless it was extended (c9a01e4) or declared differently (b4a91fc:
+   is_default_document_annotation compares the whole declaration -- supertype Annotation, the one feature `language` with range
+   String, no element type, no multipleReferencesAllowed; descriptions are not part of the schema) *)
 Definition docann_default (s : schema) (ti : tinfo) : bool :=
-  String.eqb (ti_name ti) T_DOCANN && list_eqb String.eqb (map fd_name (own_feats s ti)) ["language"].
+  String.eqb (ti_name ti) T_DOCANN
+  && match parent ti with Some p => String.eqb p T_ANNOTATION | None => false end
+  && match own_feats s ti with
+     | [fd] => String.eqb (fd_name fd) "language" && String.eqb (fd_range fd) T_STRING
+               && match fd_elem fd with None => true | Some _ => false end && negb (fd_multi fd)
+     | _ => false end.
 
 Definition types_to_include (s : schema) (mode : tsmode) (used : list tname) : res (list tname) :=
   match mode with
@@ -245,20 +255,29 @@ Definition ser_types (s : schema) (mode : tsmode) (used : list tname) : res (lis
 Definition fs_at (c : cas) (io : xid * oid) : res fsobj :=
   match hget (c_heap c) (snd io) with Some f => Ok f | None => Err EAttribute end.
 
-(* the views loop, then the traversal: the CAS before the traversal, what the loop wrote, the traversal's result *)
-Definition save_found (L : lex) (s : schema) (c : cas) : res (cas * list json * list (string * json) * wstate) :=
-  do st <- fold_left (step_view L s) (c_views c) (Ok (c, [], [])) ;;
-  let '(c1, sofa_fs, views) := st in
+(* the views loop, then the traversal: the CAS before the traversal, what the loop wrote, the byte arrays it wrote
+   (written_sofa_arrays), the traversal's result *)
+Definition save_found_wr (L : lex) (s : schema) (c : cas) : res (cas * list json * list (string * json) * list oid * wstate) :=
+  do st <- fold_left (step_view L s) (c_views c) (Ok (c, [], [], [])) ;;
+  let '(c1, sofa_fs, views, wr) := st in
   do w <- find_all_fs true s c1 ;;
-  Ok (c1, sofa_fs, views, w).
+  Ok (c1, sofa_fs, views, wr, w).
+(* the same without the set of written arrays *)
+Definition save_found (L : lex) (s : schema) (c : cas) : res (cas * list json * list (string * json) * wstate) :=
+  do r <- save_found_wr L s c ;;
+  let '(c1, sofa_fs, views, _, w) := r in Ok (c1, sofa_fs, views, w).
+
+(* `if id(fs) in written_sofa_arrays: continue`: what the views loop wrote is not written again *)
+Definition unwritten (wr : list oid) (l : list (xid * oid)) : list (xid * oid) :=
+  filter (fun io => negb (omem (snd io) wr)) l.
 
 Definition save_json (L : lex) (s : schema) (mode : tsmode) (c : cas) : res (json * cas) :=
-  do r <- save_found L s c ;;
-  let '(c1, sofa_fs, views, w) := r in
+  do r <- save_found_wr L s c ;;
+  let '(c1, sofa_fs, views, wr, w) := r in
   let c2 := cas_after c1 w in
   let found := sort_ids (w_all w) in
-  do fss <- mapM (fun io => do f <- fs_at c2 io ;; do m <- enc_fs L s c2 f ;; Ok (JObj m)) found ;;
-  do used <- mapM (fun io => do f <- fs_at c2 io ;; Ok (o_type f)) found ;;
+  do fss <- mapM (fun io => do f <- fs_at c2 io ;; do m <- enc_fs L s c2 f ;; Ok (JObj m)) (unwritten wr found) ;;
+  do used <- mapM (fun io => do f <- fs_at c2 io ;; Ok (o_type f)) found ;;     (* the type of a skipped array still counts *)
   do types <- ser_types s mode used ;;
   Ok (JObj (types ++ [(K_FS, JArr (sofa_fs ++ fss)); (K_VIEWS, JObj views)]), c2).
 
@@ -302,12 +321,23 @@ Definition canon_of (s : schema) (c : cas) (found : list oid) : res ccas :=
                            | None => Err EAttribute end) found ;;
   do sofas <- mapM (canon_sofa c) (c_views c) ;;
   Ok (mkCcas (sort_by cs_id sofas) (sort_by fst fss)).
+(* the byte arrays of the sofas, each one once, in the order of their first use *)
+Fixpoint odedup (seen l : list oid) : list oid :=
+  match l with
+  | [] => []
+  | o :: r => if omem o seen then odedup seen r else o :: odedup (seen ++ [o]) r
+  end.
+Definition sofa_arrays_once (c : cas) : list oid := odedup [] (sofa_arrays c).
+(* the structures of the CAS in the JSON view, every one once: the byte arrays of the sofas, then what the traversal finds
+   and is not such an array (an array may hold the data of several sofas and be indexed or referenced as well) *)
+Definition listed (c : cas) (w : wstate) : list oid :=
+  sofa_arrays_once c ++ map snd (unwritten (sofa_arrays c) (sort_ids (w_all w))).
 (* "the same CAS" in the JSON view: the sofa byte arrays and every structure reachable from the indexed ones
    (collections included), by id, references as ids.  Defined for a CAS whose reachable structures all carry ids (any CAS
    after a save or a load); the listing order before sorting is the writer's. *)
 Definition canon_json (s : schema) (c : cas) : res ccas :=
   do w <- find_all_fs true s c ;;
-  canon_of s c (sofa_arrays c ++ map snd (sort_ids (w_all w))).
+  canon_of s c (listed c w).
 
 (* ------------------------------------------------------------------------------------------ deserialize *)
 
@@ -317,7 +347,11 @@ Record lstate := mkL {
   l_tab : list xid;                  (* keys of the feature_structures dict *)
   l_fs : list (xid * cfs);           (* structures built so far; references still as the ids the document names *)
   l_max_id : Z; l_max_num : Z;
-  l_init : bool }.                   (* _initial_view_in_document *)
+  l_init : bool;                     (* _initial_view_in_document *)
+  l_ahead : list xid;                (* fetched_ahead: ids of the byte arrays parsed ahead of their turn for a sofa (d94ad6a) *)
+  l_made : list xid }.               (* one item per object _parse_feature_structure has created: the id it was created under
+                                        (the dict keeps the LAST object made under an id; whoever took the object out of the
+                                        dict earlier -- a sofa -- keeps the one made before) *)
 
 Fixpoint zaset {V} (k : Z) (v : V) (l : list (Z * V)) : list (Z * V) :=
   match l with [] => [(k, v)] | (k', v') :: r => if Z.eqb k k' then (k', v) :: r else (k', v') :: zaset k v r end.
@@ -360,7 +394,7 @@ Definition load_fs (L : lex) (s : schema) (st : lstate) (e : entry) : res lstate
                              else Ok fv) ;;
                   Ok (mkCfs t (sort_feats fv'))) ;;
       Ok (mkL (l_sofas st) (l_stab st) (if zmem (fst e) (l_tab st) then l_tab st else l_tab st ++ [fst e]) (zaset (fst e) cf (l_fs st))
-              (Z.max (fst e) (l_max_id st)) (l_max_num st) (l_init st))
+              (Z.max (fst e) (l_max_id st)) (l_max_num st) (l_init st) (l_ahead st) (l_made st ++ [fst e]))
     end
   end.
 
@@ -369,13 +403,16 @@ Definition upsert_sofa (cs : csofa) (l : list csofa) : list csofa :=
   if existsb (fun x => String.eqb (cs_name x) (cs_name cs)) l
   then map (fun x => if String.eqb (cs_name x) (cs_name cs) then cs else x) l
   else l ++ [cs].
-(* the byte array the sofa refers to is parsed first when it is not there yet *)
+(* the byte array the sofa refers to is parsed first when it is not there yet; its id is remembered (fetched_ahead) *)
+Definition note_ahead (r : xid) (st : lstate) : lstate :=
+  mkL (l_sofas st) (l_stab st) (l_tab st) (l_fs st) (l_max_id st) (l_max_num st) (l_init st) (l_ahead st ++ [r]) (l_made st).
 Definition prefetch_array (L : lex) (s : schema) (dict_form : bool) (es : list entry) (st : lstate) (m : list (string * json)) : res lstate :=
   match alookup (refkey "sofaArray") m with
   | Some (JInt r) =>
       if Z.eqb r 0 || zmem r (l_tab st) then Ok st
       else if dict_form && negb (zmem r (map fst es)) then Err EAttribute   (* .get(str(ref)) is None (a7ade58) *)
-      else fold_left (fun acc e2 => do a <- acc ;; if Z.eqb (fst e2) r then load_fs L s a e2 else Ok a) es (Ok st)
+      else do st' <- fold_left (fun acc e2 => do a <- acc ;; if Z.eqb (fst e2) r then load_fs L s a e2 else Ok a) es (Ok st) ;;
+           Ok (if zmem r (map fst es) then note_ahead r st' else st')
   | _ => Ok st
   end.
 Definition load_sofa (L : lex) (s : schema) (dict_form : bool) (es : list entry) (st : lstate) (e : entry) : res lstate :=
@@ -397,7 +434,7 @@ Definition load_sofa (L : lex) (s : schema) (dict_form : bool) (es : list entry)
     Ok (mkL (upsert_sofa cs (l_sofas st1)) (zaset (fst e) txt (l_stab st1))
             (if zmem (fst e) (l_tab st1) then l_tab st1 else l_tab st1 ++ [fst e]) (l_fs st1)
             (Z.max (fst e) (l_max_id st1)) (Z.max num (l_max_num st1))
-            (l_init st1 || String.eqb name "_InitialView"))
+            (l_init st1 || String.eqb name "_InitialView") (l_ahead st1) (l_made st1))
   | _, _ => Err EValue
   end.
 
@@ -419,7 +456,8 @@ Definition load_view (st : res lstate) (kv : string * json) : res lstate :=
   do sofas <- (if existsb (fun x => String.eqb (cs_name x) (fst kv)) (l_sofas st) then Ok (l_sofas st, st)
                else let cs := mkCsofa (l_max_id st + 1) (l_max_num st + 1) (fst kv) None None None None [] in
                     Ok (l_sofas st ++ [cs],
-                        mkL (l_sofas st) (l_stab st) (l_tab st) (l_fs st) (l_max_id st + 1) (l_max_num st + 1) (l_init st))) ;;
+                        mkL (l_sofas st) (l_stab st) (l_tab st) (l_fs st) (l_max_id st + 1) (l_max_num st + 1) (l_init st)
+                            (l_ahead st) (l_made st))) ;;
   let '(sofas, st) := sofas in
   do ms <- match jget K_MEMBERS (snd kv) with Some (JArr l) => mapM jint l | _ => Err EKey end ;;
   do _ <- fold_left (fun acc i => do _ <- acc ;; if zmem i (l_tab st) && negb (existsb (fun x => Z.eqb (cs_id x) i) sofas)
@@ -430,30 +468,44 @@ Definition load_view (st : res lstate) (kv : string * json) : res lstate :=
                                                                            (cf_feats (snd p))))
                            else p) (l_fs st) in
   let sofas' := map (fun x => if String.eqb (cs_name x) (fst kv) then set_members x (cs_members x ++ ms) else x) sofas in
-  Ok (mkL sofas' (l_stab st) (l_tab st) fs' (l_max_id st) (l_max_num st) (l_init st)).
+  Ok (mkL sofas' (l_stab st) (l_tab st) fs' (l_max_id st) (l_max_num st) (l_init st) (l_ahead st) (l_made st)).
 
 Definition is_dict_form (d : json) : bool := match jget K_FS d with Some (JObj _) => true | _ => false end.
 Definition initial_sofa : csofa := mkCsofa 1 1 "_InitialView" None None None None [].
 
-Definition load_json (L : lex) (s : schema) (d : json) : res ccas :=
+(* the second pass: every entry that is not a sofa and was not fetched ahead for a sofa (d94ad6a) *)
+Definition second_pass (L : lex) (s : schema) (es : list entry) (st1 : lstate) : res lstate :=
+  fold_left (fun acc e => do a <- acc ;; if is_sofa_entry e || zmem (fst e) (l_ahead a) then Ok a else load_fs L s a e) es (Ok st1).
+
+Definition load_json_via (pass2 : lex -> schema -> list entry -> lstate -> res lstate) (L : lex) (s : schema) (d : json) : res lstate :=
   do es <- fs_entries d ;;
-  let st0 := mkL [initial_sofa] [] [] [] 0 0 false in
+  let st0 := mkL [initial_sofa] [] [] [] 0 0 false [] [] in
   (* sofa-first pass *)
   do st1 <- fold_left (fun acc e => do a <- acc ;; if is_sofa_entry e then load_sofa L s (is_dict_form d) es a e else Ok a) es (Ok st0) ;;
   (* second pass *)
-  do st2 <- fold_left (fun acc e => do a <- acc ;; if is_sofa_entry e then Ok a else load_fs L s a e) es (Ok st1) ;;
+  do st2 <- pass2 L s es st1 ;;
   (* post-processors *)
   let tab := l_tab st2 in
-  let st3 := mkL (l_sofas st2) (l_stab st2) tab (map (fun p => (fst p, resolve_fs tab (snd p))) (l_fs st2)) (l_max_id st2) (l_max_num st2) (l_init st2) in
+  let st3 := mkL (l_sofas st2) (l_stab st2) tab (map (fun p => (fst p, resolve_fs tab (snd p))) (l_fs st2)) (l_max_id st2) (l_max_num st2) (l_init st2)
+                 (l_ahead st2) (l_made st2) in
   (* a document that does not mention the initial view (941f890) *)
   let st4 := if l_init st3 then st3
              else mkL (map (fun x => if String.eqb (cs_name x) "_InitialView"
                                      then mkCsofa (l_max_id st3 + 1) (l_max_num st3 + 1) (cs_name x) (cs_text x) (cs_mime x) (cs_uri x) (cs_arr x) (cs_members x)
                                      else x) (l_sofas st3))
-                      (l_stab st3) (l_tab st3) (l_fs st3) (l_max_id st3 + 1) (l_max_num st3 + 1) true in
+                      (l_stab st3) (l_tab st3) (l_fs st3) (l_max_id st3 + 1) (l_max_num st3 + 1) true (l_ahead st3) (l_made st3) in
   do views <- doc_views d ;;
-  do st5 <- fold_left load_view views (Ok st4) ;;
-  Ok (mkCcas (sort_by cs_id (map (fun x => set_members x (zsort (cs_members x))) (l_sofas st5))) (sort_by fst (l_fs st5))).
+  fold_left load_view views (Ok st4).
+Definition load_json_st := load_json_via second_pass.
+Definition content_of (st5 : lstate) : ccas :=
+  mkCcas (sort_by cs_id (map (fun x => set_members x (zsort (cs_members x))) (l_sofas st5))) (sort_by fst (l_fs st5)).
+Definition load_json (L : lex) (s : schema) (d : json) : res ccas :=
+  do st5 <- load_json_st L s d ;; Ok (content_of st5).
+(* the objects the reader created, by the id they were created under.  Every holder of a reference (a feature, an FSArray
+   element, a view member, a sofa's sofaArray) got its object out of the id-keyed dict: when no id occurs twice in this list,
+   all holders of one id hold one object -- what was shared in the document is shared in the CAS *)
+Definition load_made (L : lex) (s : schema) (d : json) : res (list xid) :=
+  do st5 <- load_json_st L s d ;; Ok (l_made st5).
 (* the id generators after loading: IdGenerator(max + 1) *)
 
 (* ------------------------------------------------------------------------------------------ premises (boolean) *)
@@ -511,13 +563,16 @@ Definition wf_jsonb (s : schema) (c : cas) : bool :=
                          | None => false end) (sofa_arrays c)
   | _ => false
   end.
-(* all ids of the document are pairwise distinct *)
+(* all ids of the document are pairwise distinct: the sofas, what the traversal finds apart from the sofa byte arrays, and
+   those arrays, each once (one array may serve several sofas and may be indexed or referenced as well) *)
+Definition arr_id (c : cas) (o : oid) : list Z :=
+  match hget (c_heap c) o with
+  | Some f => match o_id f with Some i => [i] | None => [] end
+  | None => [] end.
 Definition ids_distinctb (s : schema) (c : cas) : bool :=
   match find_all_fs true s c with
-  | Ok w => znodup (map s_xid (map v_sofa (c_views c)) ++ map fst (w_all w)
-                    ++ flat_map (fun o => match hget (c_heap c) o with
-                                          | Some f => match o_id f with Some i => [i] | None => [] end
-                                          | None => [] end) (sofa_arrays c))
+  | Ok w => znodup (map s_xid (map v_sofa (c_views c)) ++ map fst (unwritten (sofa_arrays c) (w_all w))
+                    ++ flat_map (arr_id c) (sofa_arrays_once c))
   | _ => false
   end.
 (* repeating the traversal on the CAS the save leaves behind finds the same structures under the same ids
@@ -555,3 +610,47 @@ Definition ser_types_old (s : schema) (mode : tsmode) (used : list tname) : res 
     do tis <- mapM (fun n => match sch_find s n with Some ti => Ok ti | None => Err ETypeNotFound end) (sort_names names) ;;
     Ok [(K_TYPES, JObj (map (ser_type s) (filter (fun ti => negb (String.eqb (ti_name ti) T_DOCANN)) tis)))]
   end.
+
+(* ---- the writer before d1bc860, kept for the refutation: the byte array was written in front of every sofa referring to it
+   and once more when the traversal reached it ---- *)
+Definition step_view_old (L : lex) (s : schema) (acc : res (cas * list json * list (string * json))) (v : cview)
+  : res (cas * list json * list (string * json)) :=
+  do st <- acc ;;
+  let '(c, fss, views) := st in
+  do jv <- enc_view (c_heap c) v ;;
+  do ca <- match s_arr (v_sofa v) with
+           | None => Ok (c, [])
+           | Some o =>
+             match hget (c_heap c) o with
+             | None => Err EAttribute
+             | Some f =>
+               let c1 := match o_id f with
+                         | Some _ => c
+                         | None => mkCas (c_views c) (hset (c_heap c) o (set_id f (c_next_id c))) (c_next_id c + 1)
+                         end in
+               let f1 := match o_id f with Some _ => f | None => set_id f (c_next_id c) end in
+               do m <- enc_fs L s c1 f1 ;; Ok (c1, [JObj m])
+             end
+           end ;;
+  let '(c1, arrs) := ca in
+  do ms <- enc_sofa L c1 (v_sofa v) ;;
+  Ok (c1, fss ++ arrs ++ [JObj ms], views ++ [jv]).
+Definition save_json_old (L : lex) (s : schema) (mode : tsmode) (c : cas) : res (json * cas) :=
+  do st <- fold_left (step_view_old L s) (c_views c) (Ok (c, [], [])) ;;
+  let '(c1, sofa_fs, views) := st in
+  do w <- find_all_fs true s c1 ;;
+  let c2 := cas_after c1 w in
+  let found := sort_ids (w_all w) in
+  do fss <- mapM (fun io => do f <- fs_at c2 io ;; do m <- enc_fs L s c2 f ;; Ok (JObj m)) found ;;
+  do used <- mapM (fun io => do f <- fs_at c2 io ;; Ok (o_type f)) found ;;
+  do types <- ser_types s mode used ;;
+  Ok (JObj (types ++ [(K_FS, JArr (sofa_fs ++ fss)); (K_VIEWS, JObj views)]), c2).
+
+(* ---- the reader before d94ad6a, kept for the refutation: the second pass parsed every non-sofa entry, also the byte array
+   fetched ahead for a sofa, into a second object ---- *)
+Definition second_pass_old (L : lex) (s : schema) (es : list entry) (st1 : lstate) : res lstate :=
+  fold_left (fun acc e => do a <- acc ;; if is_sofa_entry e then Ok a else load_fs L s a e) es (Ok st1).
+Definition load_made_old (L : lex) (s : schema) (d : json) : res (list xid) :=
+  do st5 <- load_json_via second_pass_old L s d ;; Ok (l_made st5).
+Definition load_json_old (L : lex) (s : schema) (d : json) : res ccas :=
+  do st5 <- load_json_via second_pass_old L s d ;; Ok (content_of st5).
